@@ -169,6 +169,7 @@ pub async fn scenario(line: &str) -> String {
     "stream" => stream(&p).await,
     "fsmscript" => fsmscript(&p).await,
     "partialread" => partialread(&p).await,
+    "hwm" => hwm(&p).await,
     "bigmulti" => bigmulti(&p).await,
     "faultlocal" => faultlocal(&p).await,
     _ => "bad-op".to_string(),
@@ -1509,5 +1510,222 @@ async fn bigmulti(p: &[&str]) -> String {
   } else {
     // accepted by the sender, connection closed by the receiver: allowed by the property
     "outcome=closed".into()
+  }
+}
+
+
+/// `hwm <opts> <sender cfg> <receiver cfg> <payload size>`
+/// opts: `tr=tcp|ipc|inproc`, `hold=<ms>` (only with SNDTIMEO -1: how long the blocked send must stay blocked).
+/// A: recv() on the empty receiver honours RCVTIMEO (0: would-block at once; d>0: timeout no earlier than d, not much
+/// later; -1: skipped). B: the sender sends numbered messages to a receiver that does not read, until a send is
+/// refused (SNDTIMEO 0 / d: error class and timing checked) or blocks (SNDTIMEO -1: it must stay blocked for `hold`
+/// ms and complete once the receiver drains). The number accepted meanwhile must stay within
+/// 2*SNDHWM + SNDBATCH_COUNT + RCVHWM + per-read allowance + kernel allowance. C: the receiver drains: exactly the
+/// accepted messages arrive, in order; the refused one never does.
+async fn hwm(p: &[&str]) -> String {
+  let opts = parse_kv(p[1]);
+  let scfg = parse_kv(p[2]);
+  let rcfg = parse_kv(p[3]);
+  let size: usize = p[4].parse().unwrap();
+  let transport = opts.get("tr").cloned().unwrap_or_else(|| "tcp".into());
+  let hold = Duration::from_millis(opts.get("hold").and_then(|v| v.parse().ok()).unwrap_or(600));
+  let geti = |m: &HashMap<String, String>, k: &str, d: i64| m.get(k).and_then(|v| v.parse::<i64>().ok()).unwrap_or(d);
+  let sndhwm = geti(&scfg, "sndhwm", 256).max(1) as usize;
+  let rcvhwm = geti(&rcfg, "rcvhwm", 256).max(1) as usize;
+  let sbc = geti(&scfg, "sbc", 128).max(1) as usize;
+  let sndtimeo = geti(&scfg, "sndtimeo", -1);
+  let rcvtimeo = geti(&rcfg, "rcvtimeo", -1);
+  let sty = scfg.get("type").cloned().unwrap_or_default();
+  let rty = rcfg.get("type").cloned().unwrap_or_default();
+  let ctx = Context::new().expect("ctx");
+  let snd = match make_socket(&ctx, &scfg).await {
+    Ok(s) => s,
+    Err(e) => return format!("setup-error sender {}", err_class(&e)),
+  };
+  let rcv = match make_socket(&ctx, &rcfg).await {
+    Ok(s) => s,
+    Err(e) => return format!("setup-error receiver {}", err_class(&e)),
+  };
+  let ep = match transport.as_str() {
+    "tcp" => "tcp://127.0.0.1:0".to_string(),
+    "ipc" => format!("ipc:///tmp/{}.sock", unique_name("rzmq-verif-hwm")),
+    _ => format!("inproc://{}", unique_name("hwm")),
+  };
+  if let Err(e) = rcv.bind(&ep).await {
+    return format!("setup-error bind {}", err_class(&e));
+  }
+  let target = if transport == "tcp" { last_endpoint(&rcv).await } else { ep.clone() };
+  if let Err(e) = snd.connect(&target).await {
+    return format!("setup-error connect {}", err_class(&e));
+  }
+  tokio::time::sleep(Duration::from_millis(250)).await;
+  let mut problems: Vec<String> = Vec::new();
+  let slack = Duration::from_millis(600);
+  // A: RCVTIMEO on an empty queue
+  if rcvtimeo >= 0 {
+    let t0 = Instant::now();
+    let r = rcv.recv_multipart().await;
+    let el = t0.elapsed();
+    match r {
+      Ok(_) => problems.push("recv on an empty socket succeeded".into()),
+      Err(ZmqError::ResourceLimitReached) | Err(ZmqError::Timeout) => {
+        let d = Duration::from_millis(rcvtimeo as u64);
+        if el + Duration::from_millis(3) < d {
+          problems.push(format!("recv gave up after {} ms, RCVTIMEO {} ms", el.as_millis(), rcvtimeo));
+        }
+        if el > d + slack {
+          problems.push(format!("recv gave up only after {} ms, RCVTIMEO {} ms", el.as_millis(), rcvtimeo));
+        }
+      }
+      Err(e) => problems.push(format!("recv on an empty socket: {}", err_class(&e))),
+    }
+  }
+  // B: fill
+  let dest: Option<Vec<u8>> = if sty == "ROUTER" { rcfg.get("id").map(|v| parse_bytes(v)) } else { None };
+  let mk = |i: u32| {
+    let mut body = vec![0u8; size.max(4)];
+    body[..4].copy_from_slice(&i.to_be_bytes());
+    let mut frames = Vec::new();
+    if let Some(d) = dest.as_ref() {
+      let mut idf = Msg::from_vec(d.clone());
+      idf.set_flags(rzmq::MsgFlags::MORE);
+      frames.push(idf);
+    }
+    frames.push(Msg::from_vec(body));
+    frames
+  };
+  let per_read = 64 * 1024 / (size + 2) + 2; // messages one read can hold (read buffers are at most a few 10 KiB)
+  let kernel = 8 * 1024 * 1024 / (size + 2) + 4; // loopback socket buffers
+  let bound = 2 * sndhwm + sbc + rcvhwm + 2 * per_read + if transport == "inproc" { 0 } else { kernel } + 4;
+  let mut accepted: u32 = 0;
+  let mut blocked: Option<tokio::task::JoinHandle<Result<(), ZmqError>>> = None;
+  let cap = (bound as u32).saturating_add(50).min(200_000);
+  loop {
+    if accepted >= cap {
+      problems.push(format!("{} messages accepted with the receiver not reading: beyond the bound {}", accepted, bound));
+      break;
+    }
+    let frames = mk(accepted);
+    let t0 = Instant::now();
+    if sndtimeo < 0 {
+      let s2 = snd.clone();
+      let mut h = tokio::spawn(async move { s2.send_multipart(frames).await });
+      match tokio::time::timeout(Duration::from_millis(500), &mut h).await {
+        Ok(Ok(Ok(()))) => accepted += 1,
+        Ok(Ok(Err(e))) => {
+          problems.push(format!("send with SNDTIMEO -1 failed: {}", err_class(&e)));
+          break;
+        }
+        Ok(Err(_)) => {
+          problems.push("send task died".into());
+          break;
+        }
+        Err(_) => {
+          blocked = Some(h);
+          break;
+        }
+      }
+    } else {
+      match snd.send_multipart(frames).await {
+        Ok(()) => accepted += 1,
+        Err(e @ ZmqError::ResourceLimitReached) | Err(e @ ZmqError::Timeout) => {
+          let el = t0.elapsed();
+          let d = Duration::from_millis(sndtimeo as u64);
+          if el + Duration::from_millis(3) < d {
+            problems.push(format!("send refused ({}) after {} ms, SNDTIMEO {} ms", err_class(&e), el.as_millis(), sndtimeo));
+          }
+          if el > d + slack {
+            problems.push(format!("send refused only after {} ms, SNDTIMEO {} ms", el.as_millis(), sndtimeo));
+          }
+          break;
+        }
+        Err(e) => {
+          problems.push(format!("send failed: {}", err_class(&e)));
+          break;
+        }
+      }
+    }
+  }
+  if (accepted as usize) > bound {
+    problems.push(format!("{} messages buffered for one connection, bound {}", accepted, bound));
+  }
+  if let Some(h) = blocked.as_mut() {
+    // SNDTIMEO -1: stays blocked while there is no room
+    match tokio::time::timeout(hold, &mut *h).await {
+      Err(_) => {}
+      Ok(r) => problems.push(format!("the blocked send returned {:?} after at most {} ms without room", r.map(|x| x.map_err(|e| err_class(&e))), hold.as_millis() + 500)),
+    }
+  }
+  // C: drain
+  let _ = set_i32(&rcv, o::RCVTIMEO, 700).await;
+  let mut expect: u32 = 0;
+  let mut extra_ok = false;
+  loop {
+    match rcv.recv_multipart().await {
+      Ok(frames) => {
+        let body = frames.last().map(|m| m.data().unwrap_or(&[]).to_vec()).unwrap_or_default();
+        let seq = if body.len() >= 4 { u32::from_be_bytes([body[0], body[1], body[2], body[3]]) } else { u32::MAX };
+        if seq != expect {
+          let mut tail = vec![seq];
+          for _ in 0..12 {
+            match rcv.recv_multipart().await {
+              Ok(fr) => {
+                let b = fr.last().map(|m| m.data().unwrap_or(&[]).to_vec()).unwrap_or_default();
+                tail.push(if b.len() >= 4 { u32::from_be_bytes([b[0], b[1], b[2], b[3]]) } else { u32::MAX });
+              }
+              Err(_) => break,
+            }
+          }
+          problems.push(format!("drain: expected #{} next, got {:?}", expect, tail));
+          break;
+        }
+        expect += 1;
+      }
+      Err(_) => break,
+    }
+    if blocked.is_some() && !extra_ok {
+      if let Some(h) = blocked.as_mut() {
+        if h.is_finished() {
+          match h.await {
+            Ok(Ok(())) => {
+              accepted += 1;
+              extra_ok = true;
+            }
+            other => problems.push(format!("blocked send ended with {:?}", other.map(|x| x.map_err(|e| err_class(&e))))),
+          }
+          blocked = None;
+        }
+      }
+    }
+  }
+  if let Some(h) = blocked.take() {
+    match tokio::time::timeout(Duration::from_millis(1500), h).await {
+      Ok(Ok(Ok(()))) => {
+        accepted += 1;
+        // the message it carried arrives too
+        if let Ok(frames) = rcv.recv_multipart().await {
+          let body = frames.last().map(|m| m.data().unwrap_or(&[]).to_vec()).unwrap_or_default();
+          if body.len() >= 4 && u32::from_be_bytes([body[0], body[1], body[2], body[3]]) == expect {
+            expect += 1;
+          }
+        }
+      }
+      other => problems.push(format!("the blocked send did not complete after the receiver drained: {:?}", other.map(|x| x.map(|y| y.map_err(|e| err_class(&e)))))),
+    }
+  }
+  if expect != accepted && problems.is_empty() {
+    problems.push(format!("accepted {} messages, the receiver got {}", accepted, expect));
+  }
+  let _ = tokio::time::timeout(Duration::from_secs(5), snd.close()).await;
+  let _ = tokio::time::timeout(Duration::from_secs(5), rcv.close()).await;
+  let _ = tokio::time::timeout(Duration::from_secs(5), ctx.term()).await;
+  if transport == "ipc" {
+    let _ = std::fs::remove_file(ep.trim_start_matches("ipc://"));
+  }
+  let _ = rty;
+  if problems.is_empty() {
+    if accepted == 0 { "ORACLE-FAIL key=hwm-vacuous nothing was accepted".into() } else { "hwm=ok".into() }
+  } else {
+    format!("ORACLE-FAIL key=hwm {} (accepted={} bound={})", problems.join("; "), accepted, bound)
   }
 }
